@@ -68,6 +68,12 @@ func progWorker(w *vf.Worker) {
 		genFieldsFamily(a, emit)
 	case "copy":
 		genCopyFamily(a, emit)
+	case "func":
+		genFuncFamily(a, emit)
+	case "recur":
+		genRecurFamily(a, emit)
+	case "hof":
+		genHofFamily(a, emit)
 	}
 	w.Count("family:"+a.Family+":enumerated", int64(n)/int64(1)) // every shard enumerates everything; divided by shards in run()
 }
@@ -97,9 +103,11 @@ func run(c *vf.Ctx) {
 			c.RunPool(vf.PoolSpec{Worker: "stack", Shards: 64, Args: sa{2, 7}})
 		}
 	}
-	fams := []progArgs{{"scope", 0, 3, 2, false}, {"coll", 0, 1, 0, false}, {"coll-risky", 0, 1, 0, true}, {"fields", 0, 2, 0, false}, {"copy", 0, 1, 0, false}}
+	fams := []progArgs{{"scope", 0, 3, 2, false}, {"coll", 0, 1, 0, false}, {"coll-risky", 0, 1, 0, true}, {"fields", 0, 2, 0, false}, {"copy", 0, 1, 0, false},
+		{"func", 0, 2, 0, false}, {"recur", 0, 0, 0, false}, {"hof", 0, 0, 0, false}}
 	if !c.Quick() {
-		fams = []progArgs{{"scope", 1, 4, 3, false}, {"coll", 1, 2, 0, false}, {"coll-risky", 1, 1, 0, true}, {"fields", 1, 3, 0, false}, {"copy", 1, 1, 0, false}}
+		fams = []progArgs{{"scope", 1, 4, 3, false}, {"coll", 1, 2, 0, false}, {"coll-risky", 1, 1, 0, true}, {"fields", 1, 3, 0, false}, {"copy", 1, 1, 0, false},
+			{"func", 1, 3, 0, false}, {"recur", 1, 0, 0, false}, {"hof", 1, 0, 0, false}}
 	}
 	for _, f := range fams {
 		if o := os.Getenv("VERIF_C14_FAMILY"); o != "" && o != f.Family {
